@@ -84,14 +84,42 @@ def build(spec):
     return quiet(Molecule, **spec)
 
 
-def call_get_fragment(m, real, ghost, group, orient):
-    """-> (constructor kwargs or None, molecule or None, exception kind or None, were the caller's lists left alone).
-    ghost / group / orient may be OMIT (or None for group / orient): then the argument is not passed and the default applies."""
+ARG_CONTAINERS = ["tuple", "nparray", "npints", "range", "npbool_flags"]
+
+
+def _as_arg(x, container):
+    """a non-empty index list in another container the call accepts as well (tuple / integer array / numpy integers / range)"""
     import copy
-    args = [copy.deepcopy(real)]
+    if not isinstance(x, list) or not x or container in (None, "npbool_flags"):
+        return copy.deepcopy(x)
+    if container == "tuple":
+        return tuple(x)
+    if container == "nparray":
+        return np.array(x, dtype=np.int64 if len(x) % 2 else np.int16)
+    if container == "npints":
+        return [np.int32(i) if k % 2 else np.int64(i) for k, i in enumerate(x)]
+    if container == "range" and x == list(range(x[0], x[0] + len(x))):
+        return range(x[0], x[0] + len(x))
+    return tuple(x)
+
+
+def _back(x):
+    if isinstance(x, (tuple, range, np.ndarray)) or (isinstance(x, list) and any(isinstance(i, np.integer) for i in x)):
+        return [int(i) for i in x]
+    return x
+
+
+def call_get_fragment(m, real, ghost, group, orient, container=None):
+    """-> (constructor kwargs or None, molecule or None, exception kind or None, were the caller's lists left alone).
+    ghost / group / orient may be OMIT (or None for group / orient): then the argument is not passed and the default applies.
+    container: hand the index lists over as a tuple / numpy array / numpy integers / range, the flags as numpy booleans."""
+    args = [_as_arg(real, container)]
     kwargs = {}
     if ghost != OMIT:
-        kwargs["ghost"] = copy.deepcopy(ghost)
+        kwargs["ghost"] = _as_arg(ghost, container)
+    if container == "npbool_flags":
+        orient = np.bool_(orient) if isinstance(orient, bool) else orient
+        group = np.bool_(group) if isinstance(group, bool) else group
     if orient not in (OMIT, None):
         kwargs["orient"] = orient
     if group not in (OMIT, None):
@@ -103,7 +131,7 @@ def call_get_fragment(m, real, ghost, group, orient):
         except Exception as e:
             sub, err = None, ekind(e)
     kw = tap.calls[0] if tap.calls else None
-    untouched = args[0] == real and kwargs.get("ghost", ghost) == ghost
+    untouched = _back(args[0]) == real and _back(kwargs.get("ghost", ghost)) == ghost
     return kw, sub, err, untouched
 
 
@@ -475,6 +503,36 @@ def history_check(parent, selections):
         subs.append(None if sub is None else sub.get_hash())
     if answers() != before:
         return "the parent molecule (or what it answers) changed while fragments were extracted from it"
+    # the sub-molecules are values of their own: writing into every array / list a sub-molecule hands out (properties, dict() values),
+    # and into what the parent hands out for fields it does not store, must not reach the parent
+    from .c11 import MUT_PROPS, _mutate_in_place
+    stored = parent.dict()
+    for real, ghost, group, orient in selections:
+        kw, sub, err, _ = call_get_fragment(parent, real, ghost, group, orient)
+        if sub is None:
+            continue
+        undos = []
+        try:
+            for k in (0, 1, 5):
+                for nm in MUT_PROPS:
+                    undos.append(_mutate_in_place(getattr(sub, nm), k))
+            for nm, v in sorted(sub.dict().items()):
+                if isinstance(v, (np.ndarray, list, dict)):
+                    undos.append(_mutate_in_place(v, 2))
+            for nm in MUT_PROPS:
+                if nm not in stored:
+                    undos.append(_mutate_in_place(getattr(parent, nm), 1))
+            try:
+                changed = answers() != before
+            except Exception:
+                changed = True                   # the parent no longer even answers
+        finally:
+            for u in reversed(undos):
+                if u is not None:
+                    u()
+        if changed:
+            return (f"the parent molecule (or what it answers) changed after the arrays handed out by get_fragment({real}, {ghost})'s result "
+                    "(and by the parent's properties for fields it does not store) were modified in place")
     for (real, ghost, group, orient), h in zip(selections, subs):
         kw, sub, err, _ = call_get_fragment(parent, real, ghost, group, orient)
         if (None if sub is None else sub.get_hash()) != h:
@@ -584,10 +642,13 @@ def correspond(ctx):
             nmeta.append(case)
             corr.count("nre")
 
-    def run_case(parent, pspec, real, ghost, group, orient, stream, validated_parent=True):
+    def run_case(parent, pspec, real, ghost, group, orient, stream, validated_parent=True, container=None):
         """group / orient None and ghost OMIT: the argument is left to its default"""
         case = {"parent": pspec, "real": real, "ghost": ghost, "group_fragments": group, "orient": orient, "validated_parent": validated_parent}
-        kw, sub, err, untouched = call_get_fragment(parent, real, ghost, group, orient)
+        if container:
+            case["container"] = container
+            corr.hit("call_container:" + container)
+        kw, sub, err, untouched = call_get_fragment(parent, real, ghost, group, orient, container)
         corr.count(stream)
         corr.hit("get_fragment_" + ("ok" if err is None else err))
         corr.hit("call:" + ("real_int" if isinstance(real, int) else "real_list") + ","
@@ -708,6 +769,8 @@ def correspond(ctx):
         add_molecule_checks(parent, "parent", {"parent": spec})
         pairs = subset_pairs(rng, nfr, per_parent)
         sels = [[r, g, rng.choice([None, True, False]), False] for r, g in pairs[:5]]
+        # ... and the selection of everything in the parent's order (the sub-molecule that could be the parent itself)
+        sels.append([list(range(nfr)), OMIT if rng.random() < 0.5 else [], rng.choice([None, True, False]), False])
         bad = safely(history_check, parent, sels)
         corr.count("oracle:history")
         if bad:
@@ -725,6 +788,10 @@ def correspond(ctx):
                 if not real:
                     g2 = ghost
                 run_case(parent, spec, r2, g2, rng.choice([None, None, True, False]), rng.choice([None, None, False, True]), "call_forms")
+            if rng.random() < 0.2:
+                # the same selection handed over in another container (tuple / integer array / numpy integers / range / numpy booleans)
+                run_case(parent, spec, real, ghost if ghost or rng.random() < 0.5 else OMIT, rng.choice([True, False]), rng.random() < 0.2,
+                         "call_containers", container=rng.choice(ARG_CONTAINERS))
         # every fragment kept real, in the parent's order and in another one, both paths (the sub-molecule of everything: its
         # totals are still formed from the fragments)
         allr = list(range(nfr))
@@ -901,7 +968,7 @@ def replay(ctx, rp):
         bad = safely(history_check, parent, case["history"])
         return {"input": case, "oracle": bad, "fails": bool(bad)}
     if "real" in case:
-        kw, sub, err, untouched = call_get_fragment(parent, case["real"], case["ghost"], case["group_fragments"], case["orient"])
+        kw, sub, err, untouched = call_get_fragment(parent, case["real"], case["ghost"], case["group_fragments"], case["orient"], case.get("container"))
         if not untouched:
             return {"input": case, "oracle": "get_fragment modified the caller's lists", "fails": True}
         if sub is None:
@@ -986,8 +1053,11 @@ LEVEL_TEXT = (
     "not the high-spin combination of their open-shell fragments) with every fragment kept real in several orders on both paths, pure "
     "translations of the repulsion energy over 2^7..2^20 bohr on exactly representable coordinates (whole and per fragment, 1e-10 relative), "
     "Molecule.get_molecular_formula with and without order / "
-    "chgmult, the formula functions without `order`, a history check (the parent and all its answers unchanged by extractions; extractions "
-    "repeatable; caller's lists untouched); nelectrons / nuclear_repulsion_energy whole and per fragment; every "
+    "chgmult, the formula functions without `order`, a history check (the parent and all its answers unchanged by extractions, incl. "
+    "the selection of every fragment in the parent's order; unchanged after every array / list the extracted sub-molecules hand out — properties "
+    "and dict() values — and what the parent hands out for fields it does not store has been modified in place; extractions "
+    "repeatable; caller's lists untouched), the index lists handed over as tuple / integer array / numpy integers / range and the "
+    "flags as numpy booleans (stream call_containers); nelectrons / nuclear_repulsion_energy whole and per fragment; every "
     "symbol multiset up to size 4 (quick) / 6 (thorough) over a 12-element alphabet in both orders; and by the conservation oracle "
     "evaluated directly on the implementation's results (incl. rigid motion + atom reordering of the repulsion energy).")
 LEVEL_NOTE = (
